@@ -99,8 +99,14 @@ let cells_str (r : ram) (m : (n * cblob) list) : string =
       | Some (_, BRes []) -> "0"
       | Some (_, BRes l) -> join (List.map (fun (f, p) -> s_of_n f ^ "." ^ s_of_n p) l)
       | Some _ -> "!") in
+  let slots = "M=" ^ join (List.filter_map (fun (k, b) ->
+      let k = int_of_n k in
+      if k < 2048 || k >= 4096 then None
+      else Some (match b with
+          | BSub (f, t) -> Printf.sprintf "%d:%s.%s" (k - 2048) (s_of_n f) (s_of_n t)
+          | _ -> Printf.sprintf "%d:!" (k - 2048))) (sort_by_key m)) in
   String.concat " " (fabs @ [basic; res; nets; labels; binds; tz; tts;
-                             per_fabric "C" r.r_icd; per_fabric "P" r.r_ota; per_fabric "E" r.r_scenes; subs; stored])
+                             per_fabric "C" r.r_icd; per_fabric "P" r.r_ota; per_fabric "E" r.r_scenes; subs; stored; slots])
 
 let kvop_str = function
   | KStore (k, _) -> "s" ^ s_of_n k
@@ -198,10 +204,10 @@ let parse_cells (s : string) : (n * n) list =
           | 'F' -> int_of_string (String.sub name 1 (String.length name - 1))
           | 'I' -> 256 | 'W' -> 258 | 'U' -> 259 | 'D' -> 260 | 'R' -> 267
           | 'Z' -> 268 | 'T' -> 262 | 'C' -> 265 | 'P' -> 264 | 'E' -> 263 | 'S' -> 2048
-          | 'K' -> 9267
+          | 'K' -> 9267 | 'M' -> 9268
           | _ -> 9999 in
         let dflt = match name.[0] with
-          | 'I' -> v = "0/-/-" | 'W' -> v = "0:-" | 'U' | 'D' | 'R' | 'T' | 'C' | 'P' | 'E' | 'S' | 'K' -> v = "-"
+          | 'I' -> v = "0/-/-" | 'W' -> v = "0:-" | 'U' | 'D' | 'R' | 'T' | 'C' | 'P' | 'E' | 'S' | 'K' | 'M' -> v = "-"
           | 'Z' -> v = "0" | _ -> false in
         Some (ni key, if dflt then N0 else intern (name ^ "=" ^ v))) (split_on ' ' s)
 
@@ -227,6 +233,13 @@ let fabs_of (cells : string) : n list =
         | None -> None
       else None) (split_on ' ' cells)
 
+(* "0:1.3+1:2.4" -> [(0,(1,3)); (1,(2,4))] *)
+let parse_slots (v : string) : (n * (n * n)) list =
+  List.filter_map (fun x ->
+      match split_on ':' x with
+      | [k; r] -> (match parse_pairs r with [p] -> (try Some (n k, p) with _ -> None) | _ -> None)
+      | _ -> None) (split_on '+' v)
+
 let vname (c : n) : string =
   if c = v_NO_BOOT then "no-boot"
   else if c = v_ACK_EARLY then "answered-before-stored"
@@ -237,6 +250,10 @@ let vname (c : n) : string =
   else if c = v_STALE then "stale-cache-after-startup"
   else if c = v_STALE_LIVE then "stale-cache-after-restart"
   else if c = v_REBOUND then "record-rebound-to-new-fabric"
+  else if c = v_SUBS_MIRROR then "subscription-store-differs-after-persist"
+  else if c = v_SUBS_STALE then "stale-subscription-after-startup"
+  else if c = v_SUBS_STALE_LIVE then "stale-subscription-after-restart"
+  else if c = v_SUBS_REBOUND then "subscription-rebound-to-new-fabric"
   else "unknown"
 
 let spec_s (f : string list) (line : string) : string =
@@ -272,7 +289,7 @@ let spec_s (f : string list) (line : string) : string =
           o_cells = parse_cells cells;
           o_restart = (match rest with k :: _ -> k = "Q" || k = "x" | [] -> false);
           o_session = (match rest with
-              | _ :: x :: _ -> (match split_on '/' x with
+              | "H" :: x :: _ -> (match split_on '/' x with
                   | [_; sess] -> (match parse_pairs sess with [p] -> Some p | _ -> None)
                   | _ -> None)
               | _ -> None);
@@ -281,15 +298,29 @@ let spec_s (f : string list) (line : string) : string =
           o_kres = parse_pairs (cell_value cells "K");
           o_inc = (match rest with
               | _ :: x :: _ -> parse_pairs (List.hd (split_on '/' x))
-              | _ -> []) }
+              | _ -> []);
+          o_subscribed = (match rest with
+              | "D" :: x :: _ -> (match split_on '/' x with
+                  | [_; sess] -> (match parse_pairs sess with [p] -> Some p | _ -> None)
+                  | _ -> None)
+              | _ -> None);
+          o_pass = (not is_reset) && List.exists (fun t ->
+              String.length t > 1 && (t.[0] = 's' || t.[0] = 'r') &&
+              (match int_of_string_opt (String.sub t 1 (String.length t - 1)) with
+               | Some k -> k >= 2048 && k < 4096 | None -> false)) (split_on ',' kv);
+          o_reset = is_reset || (match rest with k :: _ -> k = "!" | [] -> false);
+          o_subs = parse_pairs (cell_value cells "S");
+          o_ksubs = parse_slots (cell_value cells "M") }
       | _ -> { o_ok = false; o_nkv = N0; o_ack = None; o_fs = None; o_end = N0; o_left = None; o_best_effort = false; o_cells = [];
-               o_restart = false; o_session = None; o_fabs = []; o_res = []; o_kres = []; o_inc = [] })
+               o_restart = false; o_session = None; o_fabs = []; o_res = []; o_kres = []; o_inc = [];
+               o_subscribed = None; o_pass = false; o_reset = false; o_subs = []; o_ksubs = [] })
       (List.filter (fun x -> x <> "") (split_on ';' ops_s)) in
   let cuts = List.map (fun r ->
       match String.split_on_char '|' r with
       | k :: boot :: cells :: _ -> { c_n = n k; c_boot = (boot = "ok"); c_cells = parse_cells cells;
-                                     c_fabs = fabs_of cells; c_kres = parse_pairs (cell_value cells "K") }
-      | _ -> { c_n = N0; c_boot = false; c_cells = []; c_fabs = []; c_kres = [] })
+                                     c_fabs = fabs_of cells; c_kres = parse_pairs (cell_value cells "K");
+                                     c_ksubs = parse_slots (cell_value cells "M") }
+      | _ -> { c_n = N0; c_boot = false; c_cells = []; c_fabs = []; c_kres = []; c_ksubs = [] })
       (List.filter (fun x -> x <> "") (split_on ';' cuts_s)) in
   let v = monitor ops cuts in
   if v = [] then "ok"
